@@ -162,8 +162,14 @@ package main
 //@   callpre (*vm.VM).Execute arg0.maxSteps > 0 && fresh(arg0)
 // a failed execution is answered by writeInternalError only: the handler itself sets a status (other than 400 for a
 // rejected request) only after Execute succeeded, and hands writeInternalError the context of this request
-//@   callpreif (http.ResponseWriter).WriteHeader arg1 >= 200 && arg1 < 400 ==> local(err) == nil
+//@   callpreif glyph.writeEncodedJSON local(err) == nil
 //@   callpre glyph.writeInternalError arg0 == ctx
+//@   callpre (*json.Encoder).Encode ctx.StatusCode >= 400
+// a status line is committed only for a body that has been encoded: a value JSON cannot carry ends
+// in writeInternalError (500), never in a success status followed by nothing
+//@ func writeEncodedJSON
+//@   callpremust (http.ResponseWriter).WriteHeader local(err) == nil && arg1 == status
+//@   callpre glyph.writeInternalError arg0 == ctx && local(err) != nil
 //@ func (*vm.VM).SetMaxSteps
 //@   trusted
 //@   modifies vm.maxSteps
@@ -186,6 +192,9 @@ package main
 //@   trusted
 //@ func createRouteHandler$1
 //@   callpre (http.ResponseWriter).WriteHeader local(err) != nil ==> arg1 >= 400 && arg1 < 500
+// the handlers stream a JSON encoding straight into the response only after they have set an error
+// status; every other JSON answer goes through writeEncodedJSON, which encodes first
+//@   callpre (*json.Encoder).Encode ctx.StatusCode >= 400
 //@   callpre glyph.writeInternalError arg0 == ctx && local(err) != nil
 
 // ---- declared input type on compiled routes (C07): `input` is bound only after the body (or its absence) has been checked
@@ -209,7 +218,7 @@ package main
 // (retOK: the compiled-side counterpart of the interpreter's checkOK; nothing in the handler establishes it)
 //@ spec func retOK(v vm.Value, t ast.Type) bool
 //@ func createCompiledRouteHandler$1
-//@   assertat "return json.NewEncoder(ctx.ResponseWriter).Encode(result)" route.ReturnType != nil ==> retOK(result, route.ReturnType)
+//@   assertat "return writeEncodedJSON(ctx, http.StatusOK," route.ReturnType != nil ==> retOK(result, route.ReturnType)
 // the check itself: the declared type and the module's type table are what CheckType is given; that "CheckType accepted the
 // decoded JSON form" means "the value is acceptable" (retOK) is a summary, not verified (JSON round trip not modelled)
 //@ func validateCompiledReturn
@@ -218,3 +227,11 @@ package main
 //@   callpre (*interpreter.TypeChecker).SetTypeDefs arg1 == compiledTypeDefs
 //@   ensures arg0.ReturnType == nil ==> result0 == nil
 //@   summary result0 == nil && route.ReturnType != nil ==> retOK(arg1, route.ReturnType)
+
+// the type table handed to compiled routes holds every type definition of the module (C07, C02:
+// the interpreter checks against all of them; a type that is only reachable as a list element or
+// a nested field must not be missing on the compiled path)
+//@ func setCompiledTypeDefs
+//@   requires module != nil
+//@   ensures compiledTypeDefs != nil && forall(j, 0, len(module.Items), typeis(module.Items[j], *ast.TypeDef) && module.Items[j].(*ast.TypeDef) != nil ==> has(compiledTypeDefs, module.Items[j].(*ast.TypeDef).Name))
+//@   loop 1 invariant defs != nil && 0 <= rangeidx && forall(j, 0, rangeidx, typeis(module.Items[j], *ast.TypeDef) && module.Items[j].(*ast.TypeDef) != nil ==> has(defs, module.Items[j].(*ast.TypeDef).Name))
